@@ -281,7 +281,7 @@ func (g *Gen) Expr(t Ty, sc *Scope, d int, letOK bool) *Expr {
 	case c < 27:
 		g.Stats["if"]++
 		return If(g.Expr(TBool, sc, d-1, false), g.Expr(t, sc, d-1, true), g.Expr(t, sc, d-1, true))
-	case c < 31:
+	case c < 31 || (g.closed > 0 && c >= 47 && c < 53):
 		return g.genSwitch(t, sc, d)
 	case c < 36 && t != TFn1 && t != TCur:
 		// (a catch value that is a one-parameter closure is an error handler, so a try
@@ -424,7 +424,12 @@ func (g *Gen) genSwitch(t Ty, sc *Scope, d int) *Expr {
 	var pairs []*Expr
 	for i := 0; i < k; i++ {
 		var cv *Expr
-		if g.chance(70, "caseLit") {
+		if g.closed > 0 && st == TInt && g.chance(40, "caseHost") {
+			// a computed case label that calls a host function (inside a closure that captures nothing)
+			g.Stats["host_call_in_case_label"]++
+			g.nodes += 2
+			cv = SCall([]string{"ik", "ik", "pk"}[g.n(3, "caseHostFn")], Int(rapid.IntRange(-2, 6).Draw(g.T, "caseHostInt")))
+		} else if g.chance(70, "caseLit") {
 			if st == TInt {
 				cv = Int(rapid.IntRange(-2, 6).Draw(g.T, "caseInt"))
 			} else {
@@ -573,6 +578,13 @@ func (g *Gen) genInt(sc *Scope, d int) *Expr {
 		if g.chance(50, "mapFieldCall") {
 			// (also fields named like a map method: the closure field has precedence)
 			rt := []Ty{TRecF, TRecF, TRecG, TRecI}[g.n(4, "recFieldName")]
+			if rt == TRecG && g.chance(40, "recvBySwitch") {
+				// ONE call site m.get("v") whose receiver is a map WITH a closure field get for some
+				// arguments and a map WITHOUT it (the method get applies) for others
+				g.Stats["call_site_sees_maps_with_and_without_the_closure_field"]++
+				plain := Map([]string{"v"}, []*Expr{g.Expr(TInt, sc, d-2, true)})
+				return MCall(If(g.Expr(TBool, sc, d-1, false), g.Expr(TRecG, sc, d-1, false), plain), "get", Str("v"))
+			}
 			if rt != TRecF {
 				// the closure takes a string like the map method of that name: a key of the map in half of the cases
 				arg := g.Expr(TStr, sc, d-1, true)
